@@ -76,6 +76,14 @@ type fakeHost struct {
 	out       []*fakeStream // every stream this host opened
 	// scripted fault: Close() of a stream opened to one of these peers returns an error (the remote side has reset it)
 	failCloseTo map[peer.ID]bool
+	// scripted fault: every Write on a stream opened to one of these peers fails (connection dropped right after NewStream)
+	failWriteTo map[peer.ID]bool
+}
+
+func (h *fakeHost) setFailWrite(m map[peer.ID]bool) {
+	h.mu.Lock()
+	h.failWriteTo = m
+	h.mu.Unlock()
 }
 
 func (h *fakeHost) setFailClose(m map[peer.ID]bool) {
@@ -132,7 +140,7 @@ func (h *fakeHost) NewStream(ctx context.Context, p peer.ID, pids ...protocol.ID
 	dst := h.net.hosts[p]
 	h.net.mu.Unlock()
 	h.mu.Lock()
-	s := &fakeStream{remote: p, failClose: h.failCloseTo[p]}
+	s := &fakeStream{remote: p, failClose: h.failCloseTo[p], failWrite: h.failWriteTo[p]}
 	h.mu.Unlock()
 	if dst != nil {
 		dst.mu.Lock()
@@ -171,6 +179,7 @@ type fakeStream struct {
 	w              *io.PipeWriter
 	closed         int32
 	failClose      bool
+	failWrite      bool
 	closeCalls     int32
 	deadWrites     int32
 }
@@ -185,6 +194,9 @@ func (s *fakeStream) Write(p []byte) (int, error) {
 	if atomic.LoadInt32(&s.closed) != 0 {
 		atomic.AddInt32(&s.deadWrites, 1)
 		return 0, errors.New("stream closed")
+	}
+	if s.failWrite {
+		return 0, errors.New("connection reset by peer")
 	}
 	if s.w == nil {
 		return len(p), nil
